@@ -235,13 +235,13 @@ def run():
     chk = Check("C18")
     rng = random.Random(SEED * 7919 + 18)
     cases = []
-    for i in range(700 if QUICK else 12000):
+    for i in range(700 if QUICK else 60000):
         a = gen.random_abstract(rng, N=rng.randint(1, 9), K=rng.randint(1, 4), max_edges=14, nsites=0, nmuts=0, max_time=rng.choice([3, 6]),
                                 p_internal_sample=rng.choice([0.15, 0.4]))
         cases.append(drive(a, rng))
     # many nodes / long labels: star and caterpillar trees
     nmain = len(cases)
-    for i in range(150 if QUICK else 2500):
+    for i in range(150 if QUICK else 10000):
         c = fasta_case(rng)
         if c is not None:
             cases.append(c)
